@@ -378,7 +378,13 @@ def expectedSpecials : List (String × Nat × Nat) := [
   ("offset", 0, 222863070828996),
   ("memory_addr", 0, 127546556306039), ("memory_addr", 1, 177514659168936), ("memory_addr", 2, 189859650019970),
   ("memory_addr", 3, 189859650019970), ("memory_addr", 4, 270833570792448),
-  ("byte_label", 0, 91091931273634), ("word_label", 0, 91091931273634)]
+  ("byte_label", 0, 91091931273634), ("word_label", 0, 91091931273634),
+  ("general_string", 3, 107809784482257), ("general_string", 4, 123954269568931)]
+
+/-- `str::replacen(":", " ", 1)`: the first colon becomes a blank -/
+def replaceFirstColon : List Char → List Char
+  | [] => []
+  | c :: cs => if c == ':' then ' ' :: cs else c :: replaceFirstColon cs
 
 def wrapI (bits : Nat) (n : Nat) : Int :=
   let m := n % 2 ^ bits
@@ -591,6 +597,8 @@ def special (reparse : String → M Unit) (name : String) (alt : Nat) (kids : Li
     let pre := match optStr (v 0) with | some s => s!"{s}:" | none => ""
     if a ≤ 1 then pure (.str s!"{pre}[{(v 2).render}]")
     else pure (.str s!"{pre}[{strOf (v 2)},{(v 4).render}]")
+  | "general_string", 3 => pure (.str s!"byte {String.ofList (replaceFirstColon (strOf (v 1)).toList)}")
+  | "general_string", 4 => pure (.str s!"word {String.ofList (replaceFirstColon (strOf (v 1)).toList)}")
   | "byte_label", 0 => dataLabelCheck (posOf (v 0)) (posOf (v 3)) (strOf (v 2)) false
   | "word_label", 0 => dataLabelCheck (posOf (v 0)) (posOf (v 3)) (strOf (v 2)) true
   | _, _ => fail (.panic s!"model: unknown special action {name}/{alt}")
